@@ -35,6 +35,22 @@ _re_ident_or_num = re.compile(r'''(?x)
 ''')
 
 
+# Characters that the lexer refuses to see unescaped inside a string
+# literal (bidirectional formatting characters), plus the control
+# characters that are better not printed raw.  They are written as \xNN
+# (ASCII) or \uNNNN, which the lexer accepts for all of them but U+0000.
+_re_unprintable = re.compile(
+    r'[\u0000-\u0007\u000B\u000E-\u001F\u007F-\u009F'
+    r'\u202A-\u202E\u2066-\u2069]'
+)
+
+
+def _escape_unprintable(m: re.Match[str]) -> str:
+    c = ord(m.group(0))
+    # \xNN is only accepted by the lexer for ASCII
+    return f'\\x{c:02x}' if c < 0x80 else f'\\u{c:04x}'
+
+
 def escape_string(s: str) -> str:
     # characters escaped according to
     # https://www.edgedb.com/docs/reference/edgeql/lexical#strings
@@ -49,6 +65,8 @@ def escape_string(s: str) -> str:
     result = result.replace('\n', '\\n')
     result = result.replace('\r', '\\r')
     result = result.replace('\t', '\\t')
+
+    result = _re_unprintable.sub(_escape_unprintable, result)
 
     return result
 
